@@ -70,6 +70,24 @@ def exc_class(ex):
 
 
 # --------------------------------------------------------------------------- A. axis table
+def axis_verdict(e, name, out, r):
+    """Pure judgement of one observed outcome against a table entry -> violation signature or None."""
+    if e["ok"]:
+        if out != "returned":
+            return dict(clause="axis-table", call=name, kind="valid-pair-rejected", got=out)
+        if name == "to_indices2d":
+            try:
+                same = tuple(int(v) for v in r) == tuple(e["idx"])
+            except Exception:  # noqa: BLE001
+                same = False
+            if not same:
+                return dict(clause="axis-table", call=name, kind="wrong-indices")
+        return None
+    if out != e["exc"]:
+        return dict(clause="axis-table", call=name, kind="invalid-pair", got=out)
+    return None
+
+
 def replay_axis_entry(pd, e, chk):
     from pydrex import geometry, velocity
 
@@ -85,14 +103,7 @@ def replay_axis_entry(pd, e, chk):
             out = "returned"
         except Exception as ex:  # noqa: BLE001
             r, out = None, exc_class(ex)
-        sig = None
-        if e["ok"]:
-            if out != "returned":
-                sig = dict(clause="axis-table", call=name, kind="valid-pair-rejected", got=out)
-            elif name == "to_indices2d" and tuple(r) != tuple(e["idx"]):
-                sig = dict(clause="axis-table", call=name, kind="wrong-indices")
-        elif out != e["exc"]:
-            sig = dict(clause="axis-table", call=name, kind="invalid-pair", got=out)
+        sig = axis_verdict(e, name, out, r)
         if sig:
             chk.violation(sig, f"{name}({e['a']!r}, {e['b']!r}) -> {out} {r if name == 'to_indices2d' else ''}; table says {e['exc'] if not e['ok'] else e['idx']}", dict(entry=e))
 
@@ -242,14 +253,36 @@ def replay_flows(cases, chk, judge, quick):
 
 
 # --------------------------------------------------------------------------- C. strain increments
-def strain_dev(utils, c, expected=None):
+def strain_judge(got, exp, scale):
+    """Pure comparison of an observed strain increment with the spec's exact value."""
+    try:
+        dev = abs(float(got) - exp)
+    except Exception:  # noqa: BLE001
+        return False, math.inf
+    ok = dev <= TOL * scale + 1e-300
+    return ok, (dev / scale if scale > 0 else dev)
+
+
+def strain_case(c):
+    """Concrete inputs and exact expected value of a TLC strain case (numbers n/d * 10^e)."""
     L = np.array([[x[0] / x[1] for x in row] for row in c["L"]], dtype=float) * 10.0 ** c["eL"]
     dt = c["dt"][0] / c["dt"][1] * 10.0 ** c["eT"]
-    exp = (c["expected"][0] / c["expected"][1] * 10.0 ** c["eExp"]) if expected is None else expected
-    got = float(utils.strain_increment(float(dt), np.ascontiguousarray(L)))
-    scale = abs(dt) * float(np.abs(L).max())
-    ok = abs(got - exp) <= TOL * scale + 1e-300
-    return ok, (abs(got - exp) / scale if scale > 0 else abs(got - exp)), got, exp
+    exp = c["expected"][0] / c["expected"][1] * 10.0 ** c["eExp"]
+    return L, dt, exp, abs(dt) * float(np.abs(L).max())
+
+
+def strain_dev(utils, c):
+    L, dt, exp, scale = strain_case(c)
+    try:
+        got = float(utils.strain_increment(float(dt), np.ascontiguousarray(L)))
+    except Exception as ex:  # noqa: BLE001
+        return False, math.inf, "raised " + repr(ex)[:120], exp
+    ok, dev = strain_judge(got, exp, scale)
+    return ok, dev, got, exp
+
+
+def dt_class(c):
+    return "negative" if c["dt"][0] < 0 else ("zero" if c["dt"][0] == 0 else "positive")
 
 
 # --------------------------------------------------------------------------- D. pathlines
